@@ -1,6 +1,10 @@
 package symex
 
 import (
+	"fmt"
+	"go/types"
+	"strings"
+
 	"verif/engine/smt"
 
 	"golang.org/x/tools/go/ssa"
@@ -15,7 +19,38 @@ import (
 // math/bits.Div64(hi, lo, y) = (quo, rem) of the 128-bit value hi:lo by y, for y != 0 and y > hi
 // (otherwise the real function panics; callers in the harnesses establish the precondition, the
 // intrinsic ends the path as a panic when it may be violated).
+//
+// strings.ToUpper: folded for constants, otherwise an uninterpreted function (like strings.ToLower).
+//
+// encoding/json.Unmarshal: the base model recognises Marshal(v) -> Unmarshal(&w) only when v and w
+// have the same type.  peersync's store marshals a *peerRecord and unmarshals into a peerRecord
+// value; encoding/json encodes a non-nil pointer as its pointee, so that round trip returns the
+// pointee's content as well (same trust as the base model: encoding/json round-trips these structs).
 func init() {
+	intrinsics["strings.ToUpper"] = func(m *Machine, fn *ssa.Function, args []Value) Value {
+		s := strArg(args[0])
+		if s.IsConst() {
+			return smt.StrC(strings.ToUpper(s.S))
+		}
+		return smt.UF("strings.ToUpper", smt.Str, s)
+	}
+	baseUnmarshal := intrinsics["encoding/json.Unmarshal"]
+	intrinsics["encoding/json.Unmarshal"] = func(m *Machine, fn *ssa.Function, args []Value) Value {
+		data, _ := m.sliceBytesTerm(args[0])
+		if dst, ok := args[1].(*IfaceV); ok {
+			if pt, ok := dst.T.(*types.Pointer); ok {
+				if src, ok := m.ghost[fmt.Sprintf("json:%d", data.ID)].(*IfaceV); ok {
+					if sp, ok := src.T.(*types.Pointer); ok && types.Identical(sp.Elem(), pt.Elem()) {
+						if p, ok := src.V.(*Ptr); ok && p != nil && p.Cell != nil {
+							dst.V.(*Ptr).store(p.load())
+							return &IfaceV{}
+						}
+					}
+				}
+			}
+		}
+		return baseUnmarshal(m, fn, args)
+	}
 	intrinsics["math/bits.Mul64"] = func(m *Machine, fn *ssa.Function, args []Value) Value {
 		x, y := args[0].(*smt.Term), args[1].(*smt.Term)
 		p := smt.BVMul(smt.ZeroExt(x, 128), smt.ZeroExt(y, 128))
